@@ -1,0 +1,157 @@
+//! Verification hook (only compiled with `--cfg pavex_verif`): append a JSON description of the
+//! call graphs seen by the borrow checker to the file named by `PAVEX_VERIF_DUMP`.
+use std::io::Write;
+use std::ops::Deref;
+
+use petgraph::Direction;
+use petgraph::prelude::EdgeRef;
+
+use pavex_bp_schema::CloningPolicy;
+
+use crate::compiler::analyses::call_graph::{CallGraphEdgeMetadata, CallGraphNode, RawCallGraph};
+use crate::compiler::analyses::components::{ComponentDb, ComponentId, HydratedComponent};
+use crate::compiler::analyses::computations::ComputationDb;
+use crate::compiler::computation::Computation;
+use crate::language::Type;
+
+use super::copy::CopyChecker;
+
+fn esc(s: &str) -> String {
+    let mut o = String::new();
+    for c in s.chars() {
+        match c {
+            '"' => o.push_str("\\\""),
+            '\\' => o.push_str("\\\\"),
+            '\n' => o.push_str("\\n"),
+            c if (c as u32) < 0x20 => o.push(' '),
+            c => o.push(c),
+        }
+    }
+    o
+}
+
+/// One JSON object describing `call_graph` (nodes by index, edges by edge index).
+pub(super) fn graph_json(
+    call_graph: &RawCallGraph,
+    copy_checker: &CopyChecker,
+    component_db: &ComponentDb,
+    computation_db: &ComputationDb,
+) -> String {
+    let mut nodes = Vec::new();
+    for node_index in call_graph.node_indices() {
+        let node = &call_graph[node_index];
+        let (kind, label, out_ty) = match node {
+            CallGraphNode::Compute { component_id, .. } => {
+                let h = component_db.hydrated_component(*component_id, computation_db);
+                let label = match h.computation() {
+                    Computation::Callable(c) => format!("{c:?}"),
+                    Computation::MatchResult(m) => format!("match {:?} -> {:?}", m.input, m.output),
+                    Computation::PrebuiltType(t) => format!("prebuilt {t:?}"),
+                };
+                ("compute", label, h.output_type().cloned())
+            }
+            CallGraphNode::MatchBranching => ("branch", "`match`".to_string(), None),
+            CallGraphNode::InputParameter { type_, .. } => {
+                ("input", format!("{type_:?}"), Some(type_.to_owned()))
+            }
+        };
+        let is_ref = matches!(out_ty, Some(Type::Reference(..)));
+        let is_copy = copy_checker.is_copy(call_graph, node_index, component_db, computation_db);
+        let cloneable = node
+            .component_id()
+            .map(|id: ComponentId| {
+                matches!(
+                    component_db.hydrated_component(id, computation_db),
+                    HydratedComponent::Constructor(_)
+                ) && component_db.cloning_policy(id) != CloningPolicy::NeverClone
+            })
+            .unwrap_or(false);
+        // Same computation as the forward pass of `move_while_borrowed`.
+        let mut tied = Vec::new();
+        let mut direct = Vec::new();
+        if let Some(h) = node.as_hydrated_component(component_db, computation_db)
+            && let Computation::Callable(callable) = h.computation()
+        {
+            let strip = |t: &Type| {
+                if let Type::Reference(r) = t {
+                    r.inner.deref().to_owned()
+                } else {
+                    t.to_owned()
+                }
+            };
+            let tied_tys: Vec<Type> = callable
+                .inputs_with_lifetime_tied_with_output()
+                .iter()
+                .map(|&i| strip(&callable.inputs()[i].type_))
+                .collect();
+            let direct_tys: Vec<Type> = callable
+                .inputs_that_output_borrows_immutably_from()
+                .iter()
+                .map(|&i| strip(&callable.inputs()[i].type_))
+                .collect();
+            for e in call_graph.edges_directed(node_index, Direction::Incoming) {
+                if let CallGraphEdgeMetadata::HappensBefore = e.weight() {
+                    continue;
+                }
+                let dep = e.source();
+                let dep_ty = match &call_graph[dep] {
+                    CallGraphNode::Compute { component_id, .. } => component_db
+                        .hydrated_component(*component_id, computation_db)
+                        .output_type()
+                        .cloned(),
+                    CallGraphNode::MatchBranching => None,
+                    CallGraphNode::InputParameter { type_, .. } => Some(type_.to_owned()),
+                };
+                let Some(dep_ty) = dep_ty else { continue };
+                if tied_tys.contains(&dep_ty) {
+                    tied.push(dep.index());
+                }
+                if direct_tys.contains(&dep_ty) {
+                    direct.push(dep.index());
+                }
+            }
+        }
+        nodes.push(format!(
+            "{{\"i\":{},\"kind\":\"{}\",\"label\":\"{}\",\"out\":\"{}\",\"copy\":{},\"ref\":{},\"cloneable\":{},\"tied\":{:?},\"direct\":{:?}}}",
+            node_index.index(),
+            kind,
+            esc(&label),
+            esc(&out_ty.map(|t| format!("{t:?}")).unwrap_or_default()),
+            is_copy,
+            is_ref,
+            cloneable,
+            tied,
+            direct
+        ));
+    }
+    let mut edges = Vec::new();
+    for edge_index in call_graph.edge_indices() {
+        let (s, t) = call_graph.edge_endpoints(edge_index).unwrap();
+        let k = match call_graph[edge_index] {
+            CallGraphEdgeMetadata::Move => "move",
+            CallGraphEdgeMetadata::SharedBorrow => "shared",
+            CallGraphEdgeMetadata::ExclusiveBorrow => "excl",
+            CallGraphEdgeMetadata::HappensBefore => "before",
+        };
+        edges.push(format!("[{},{},\"{}\"]", s.index(), t.index(), k));
+    }
+    format!(
+        "{{\"nodes\":[{}],\"edges\":[{}]}}",
+        nodes.join(","),
+        edges.join(",")
+    )
+}
+
+/// Append one line to the dump file, if one was requested.
+pub(super) fn emit(line: String) {
+    let Ok(path) = std::env::var("PAVEX_VERIF_DUMP") else {
+        return;
+    };
+    if let Ok(mut f) = std::fs::OpenOptions::new()
+        .create(true)
+        .append(true)
+        .open(path)
+    {
+        let _ = f.write_all(format!("{line}\n").as_bytes());
+    }
+}
